@@ -28,3 +28,4 @@ pub fn each_line(mut f: impl FnMut(&str) -> String) {
     }
     out.flush().unwrap();
 }
+pub mod irdump;
